@@ -18,6 +18,7 @@ import (
 	"os"
 	"path/filepath"
 	"runtime"
+	"runtime/debug"
 	"sort"
 	"strconv"
 	"strings"
@@ -48,6 +49,9 @@ func guard(f func() string) (s string) {
 	defer func() {
 		if e := recover(); e != nil {
 			s = "PANIC"
+			if os.Getenv("C11RACE_DEBUG") != "" {
+				fmt.Printf("panic: %v\n%s\n", e, debug.Stack())
+			}
 		}
 	}()
 	return f()
@@ -70,11 +74,13 @@ func hx(b []byte) string {
 // canonical string.
 func ops(st *trie.SlimTrie, queries []string, complete bool) []op {
 	var l []op
+	cur := ""
 	add := func(n string, f func(y *rng) string) {
-		l = append(l, op{n, func(y *rng) string { return guard(func() string { return f(y) }) }})
+		l = append(l, op{n + "(" + cur + ")", func(y *rng) string { return guard(func() string { return f(y) }) }})
 	}
 	for _, q := range queries {
 		q := q
+		cur = "0x" + hex.EncodeToString([]byte(q))
 		add("Get", func(y *rng) string { v, f := st.Get(q); return fmt.Sprint(v, f) })
 		add("GetID", func(y *rng) string { return fmt.Sprint(st.GetID(q)) })
 		add("RangeGet", func(y *rng) string { v, f := st.RangeGet(q); return fmt.Sprint(v, f) })
@@ -84,6 +90,7 @@ func ops(st *trie.SlimTrie, queries []string, complete bool) []op {
 		add("GetI32", func(y *rng) string { v, f := st.GetI32(q); return fmt.Sprint(v, f) })
 		add("GetI64", func(y *rng) string { v, f := st.GetI64(q); return fmt.Sprint(v, f) })
 	}
+	cur = ""
 	add("Stat", func(y *rng) string { return fmt.Sprintf("%+v", *st.Stat()) })
 	add("String", func(y *rng) string { return st.String() })
 	add("Marshal", func(y *rng) string { b, err := st.Marshal(); return hx(b) + fmt.Sprint(err) })
@@ -93,6 +100,7 @@ func ops(st *trie.SlimTrie, queries []string, complete bool) []op {
 				continue
 			}
 			q := q
+			cur = "0x" + hex.EncodeToString([]byte(q))
 			incl := i%2 == 0
 			add("ScanFrom", func(y *rng) string {
 				var sb strings.Builder
@@ -137,6 +145,22 @@ func ops(st *trie.SlimTrie, queries []string, complete bool) []op {
 
 var failed bool
 
+// batch: one goroutine running n random ops; differing results are recorded.
+func batch(all []op, solo []string, y *rng, n int, skip map[int]bool, diff map[int]string, mu *sync.Mutex) {
+	for j := 0; j < n; j++ {
+		i := y.intn(len(all))
+		yield(y)
+		got := all[i].run(y)
+		if got != solo[i] && !skip[i] {
+			mu.Lock()
+			if _, ok := diff[i]; !ok {
+				diff[i] = got
+			}
+			mu.Unlock()
+		}
+	}
+}
+
 func hammer(label string, st *trie.SlimTrie, queries []string, complete bool, r *rng, rounds int) {
 	all := ops(st, queries, complete)
 	solo := make([]string, len(all))
@@ -144,33 +168,51 @@ func hammer(label string, st *trie.SlimTrie, queries []string, complete bool, r 
 	for i, o := range all {
 		solo[i] = o.run(y0)
 	}
+	var mu sync.Mutex
+	// Control, NO concurrency: fresh goroutines, one at a time, each running a
+	// random sequence of ops. A result that differs here differs without any
+	// sharing (it depends on what the goroutine's stack held before): reported
+	// as NONDET and excluded from the concurrent comparison.
+	nondet := map[int]string{}
+	seq := func(n int) {
+		for k := 0; k < n; k++ {
+			var wg sync.WaitGroup
+			y := &rng{r.u64()}
+			wg.Add(1)
+			go func() { defer wg.Done(); batch(all, solo, y, 20+y.intn(40), nil, nondet, &mu) }()
+			wg.Wait()
+		}
+	}
+	seq(8 * rounds)
+	skip := map[int]bool{}
+	for i := range nondet {
+		skip[i] = true
+	}
+	diff := map[int]string{}
 	for round := 0; round < rounds; round++ {
 		g := 2 + r.intn(31) // 2..32
 		var wg sync.WaitGroup
-		var mu sync.Mutex
 		for k := 0; k < g; k++ {
-			seed := r.u64()
+			y := &rng{r.u64()}
 			wg.Add(1)
-			go func() {
-				defer wg.Done()
-				y := &rng{seed}
-				n := 20 + y.intn(40)
-				for j := 0; j < n; j++ {
-					i := y.intn(len(all))
-					yield(y)
-					got := all[i].run(y)
-					if got != solo[i] {
-						mu.Lock()
-						if !failed {
-							fmt.Printf("MISMATCH %s op=%s goroutines=%d got=%.200s want=%.200s\n", label, all[i].name, g, got, solo[i])
-						}
-						failed = true
-						mu.Unlock()
-					}
-				}
-			}()
+			go func() { defer wg.Done(); batch(all, solo, y, 20+y.intn(40), skip, diff, &mu) }()
 		}
 		wg.Wait()
+	}
+	if len(diff) > 0 {
+		// does it also happen without concurrency, given more tries?
+		seq(60 * rounds)
+	}
+	for i, got := range nondet {
+		failed = true
+		fmt.Printf("NONDET %s op=%s got=%.200s want=%.200s\n", label, all[i].name, got, solo[i])
+	}
+	for i, got := range diff {
+		if _, ok := nondet[i]; ok {
+			continue
+		}
+		failed = true
+		fmt.Printf("MISMATCH %s op=%s got=%.200s want=%.200s\n", label, all[i].name, got, solo[i])
 	}
 	fmt.Printf("ok %s ops=%d rounds=%d\n", label, len(all), rounds)
 }
